@@ -23,6 +23,7 @@ def mk_project(rng):
     expected = set()
     placements = []
     trees = {(ns, l): {"top": [("plain", "text"), ("hello", "hi {{ name }}")], "grp": [("leaf", "x")]} for ns in (namespaces or [None]) for l in locales}
+    styles = {u: rng.below(3) for u in uses}
     for u in uses:
         ns = rng.pick(namespaces) if namespaces else None
         where = rng.pick(["default", "other-locale", "subkey", "via-fk", "both"])
@@ -37,9 +38,20 @@ def mk_project(rng):
             tgt = t["grp"] if where == "subkey" else t["top"]
             if l in tlocs:
                 if u == "plural":
-                    tgt += [(f"{key}_one", "one {{ count }}"), (f"{key}_other", "many {{ count }}")]
+                    # a plural may never print its count; or print it in one form only
+                    shape = styles[u]
+                    one = "a single item" if shape in (0, 1) else "one {{ count }}"
+                    many = "several items" if shape == 0 else "many {{ count }}"
+                    tgt += [(f"{key}_one", one), (f"{key}_other", many)]
                 else:
-                    tgt += [(key, "v: {{ v, " + u + " }}")]
+                    # the same variable may also be printed without the formatter (same string, or only in another locale)
+                    shape = styles[u]
+                    if shape == 0:
+                        tgt += [(key, "v: {{ v, " + u + " }}")]
+                    elif shape == 1:
+                        tgt += [(key, "plain {{ v }} and formatted {{ v, " + u + " }}")]
+                    else:
+                        tgt += [(key, "v: {{ v, " + u + " }}" if l == tlocs[-1] else "v: {{ v }}")]
             else:
                 # the key must exist in the default locale: a plain string there when the usage lives elsewhere
                 if l == default:
